@@ -125,7 +125,7 @@ def replay(ctx, w):
         twin_outcome = twin.run('live')
         holder = {}
         sch = w['schedule']
-        strat = S.RandomStrategy(random.Random(sch[1]), sch[2]) if (sch and sch[0] == 'random') else S.PrefixStrategy(sch)
+        strat = S.strategy_from(sch)
         rec = S.run_once(make_execution(prog, faults, holder), strat, targets())
         r = _Res()
         r.live, r.twin, r.outcome, r.twin_outcome = holder['built'], twin, rec.result, twin_outcome
